@@ -159,10 +159,14 @@ def apply_contract(I, contract, fn, args, kwargs, node):
                 continue        # clause about the callee's internals: proved of the callee, not usable by callers
             v = eval_clause(I, contract, cl, env2)
             tv = I.truth(v)
+            site = (contract.target, getattr(node, "lineno", 0), cl.name)
+            cnt = ctx.modular_sites.setdefault(site, [0, 0])
             if tv is False:
-                # a callee postcondition that is false outright (not merely on this path) would end the path silently
-                raise ContractError("postcondition %s of %s is unsatisfiable for the havocked result at this call site "
-                                    "(does the contract declare result()?)" % (cl.name, contract.target))
+                # false outright on this fork of the havocked result: fine if another fork satisfies it, a vacuity
+                # hazard if none ever does (checked when the task ends)
+                cnt[0] += 1
+            else:
+                cnt[1] += 1
             ctx.assume(tv)
     finally:
         ctx.assuming -= 1
